@@ -24,6 +24,38 @@ func count(key string) { st.Dist[key]++ }
 
 var out *bufio.Writer
 
+// pending request: what the harness is about to hand to the repository's code.  Written (unbuffered) to <out>.pending
+// BEFORE the call; if the process is killed by a fatal runtime error inside the repository's code the file names
+// the input that did it.  Removed on a normal end.
+var pendingF *os.File
+
+func pend(format string, a ...interface{}) {
+	if pendingF == nil {
+		return
+	}
+	pendingF.Truncate(0)
+	pendingF.WriteAt([]byte(fmt.Sprintf(format, a...)), 0)
+	pendingOff = -1
+}
+
+var pendingOff int64 = -1
+
+// pendAppend adds to the pending request (histories: one operation at a time)
+func pendAppend(s string) {
+	if pendingF == nil {
+		return
+	}
+	if pendingOff < 0 {
+		st, err := pendingF.Stat()
+		if err != nil {
+			return
+		}
+		pendingOff = st.Size()
+	}
+	n, _ := pendingF.WriteAt([]byte(s), pendingOff)
+	pendingOff += int64(n)
+}
+
 func emit(line string) {
 	out.WriteString(line)
 	out.WriteByte('\n')
@@ -61,6 +93,15 @@ func main() {
 	}
 	out = bufio.NewWriterSize(f, 1<<20)
 	defer out.Flush()
+	if *outFile != "" {
+		pendingF, _ = os.Create(*outFile + ".pending")
+		defer func() {
+			if pendingF != nil {
+				pendingF.Close()
+				os.Remove(*outFile + ".pending")
+			}
+		}()
+	}
 
 	if *replay != "" {
 		replayFile(*replay)
@@ -124,6 +165,7 @@ func replayFile(file string) {
 		if len(f) == 0 {
 			continue
 		}
+		pend("%s", req)
 		switch f[0] {
 		case "run":
 			if c, ok := parseRequest(req); ok {
